@@ -155,6 +155,21 @@ def work_rle(chunk):
     return col
 
 
+def _eq_subclass(base):
+    class Graded(base):  # a user subclass with value equality: same name, same object as far as == is concerned
+        def __eq__(self, other):
+            return type(other) is type(self) and other.name == self.name
+
+        def __hash__(self):
+            return hash(self.name)
+
+    Graded.__name__ = base.__name__
+    return Graded
+
+
+_EQ = {"task": _eq_subclass(BaseTask), "component": _eq_subclass(BaseComponent), "worker": _eq_subclass(BaseWorker), "facility": _eq_subclass(BaseFacility)}
+
+
 def work_extract(chunk):
     col = engines.Collector()
     for kind, nobj, length in chunk:
@@ -162,13 +177,14 @@ def work_extract(chunk):
         timelists = [list(c) for k in range(0, 4) for c in itertools.combinations(range(4), k)]
         seqs = [list(s) for L in range(0, length + 1) for s in itertools.product(alpha, repeat=L)]
         twin = {"task": BaseComponentState, "component": BaseTaskState, "worker": BaseFacilityState, "facility": BaseWorkerState}[kind]
-        variants = [(False, "member")] + ([(True, "member")] if nobj > 1 else []) + [(False, "int"), (False, "twin")]
+        # ("equal": workers / machines of a user subclass that compare equal by name; tasks and components, which the library keeps in sets, are not claimed under that usage)
+        variants = [(False, "member")] + ([(True, "member")] if nobj > 1 else []) + ([("equal", "member")] if nobj > 1 and kind in ("worker", "facility") else []) + [(False, "int"), (False, "twin")]
         for logs, (same_name, rep) in itertools.product(itertools.combinations_with_replacement(range(len(seqs)), nobj), variants):
             objs = []
             for i, li in enumerate(logs):
                 nm = "%s%d" % (kind[0], i)
                 # objects may share a name (skills are keyed by name); IDs are what tells them apart
-                o = {"task": BaseTask, "component": BaseComponent, "worker": BaseWorker, "facility": BaseFacility}[kind]("x" if same_name else nm, ID=nm)
+                o = ({"task": BaseTask, "component": BaseComponent, "worker": BaseWorker, "facility": BaseFacility} if same_name != "equal" else _EQ)[kind]("x" if same_name else nm, ID=nm)
                 # entries as the simulator writes them, as plain ints, or as equal-valued members of the sibling enum
                 # (both occur in logs that were read or appended from JSON); states are compared by value
                 o.state_record_list = [x if rep == "member" else (int(x) if rep == "int" else twin(int(x))) for x in seqs[li]]
